@@ -103,7 +103,7 @@ func init() {
 		SingleProc: true,
 		Rule: "one connection, 14 histories of 2..5 frames from {escape-free, escaped, fragmented pair (reassembled), fragmented+ordinary interleaved}, delivered one frame per read, two per read, every frame split in the middle (each read = tail of one frame + head of the next), and one per read followed by the terminal closing; plus 5 histories that leave a sub-package transfer incomplete when the terminal hangs up, with the sub-package filter on (the join callback holds packet 1) and off (every packet reaches the handlers); " +
 			"recording handlers snapshot every delivered Message inside OnReadExecutionEvent and keep the pointer; ALL schedules of reader/writer/terminal within the deviation bound (2 quick, 3 thorough) are executed; " +
-			"at every later callback and at quiescence each kept Message is compared with its snapshot, and every reply on the socket with the reference reply of the snapshotted request. Then EVERY thread interleaving (no preemption bound) of every history above with the default environment answers (timers fire when nothing else can run, first ready select case (moving on to the next when the same select is met again), writes succeed), using a cache of happens-before state keys: each state is expanded once, every state and transition is executed at least once (not every path); the cache is validated per run by a self-test (cached search = every-schedule search on 20 programs that fail when a component of the key is removed) and by comparing a harness digest whenever a key is met again; counters unbounded_* say how many scenarios closed and how many stopped at the state limit (quick 20000 states, thorough 1000000). Non-trivial = schedule with >=1 deviation",
+			"at every later callback and at quiescence each kept Message is compared with its snapshot, and every reply on the socket with the reference reply of the snapshotted request. Then EVERY thread interleaving (no preemption bound) of every history above with the default environment answers (timers fire when nothing else can run, first ready select case (moving on to the next when the same select is met again), writes succeed), using a cache of happens-before state keys: each state is expanded once, every state and transition is executed at least once (not every path); the cache is validated per run by a self-test (cached search = every-schedule search on 20 programs that fail when a component of the key is removed) and by comparing a harness digest whenever a key is met again; the flag exhaustive refers to the deviation-bounded families; for the cached pass the counters unbounded_* say how many scenarios closed and how many stopped at the state limit (quick 20000 states, thorough 1000000). Non-trivial = schedule with >=1 deviation",
 		Assumptions: []string{"scheduling points at channel/socket/once operations; unsynchronised accesses are C18's subject"},
 		Run: func(ctx *vc.Ctx, rep *vc.Report) {
 			bound := 2
